@@ -119,6 +119,13 @@ def rule_apply_window(chk: Check, model: Model, rid: str):
     if ok:
         neww, iw = out[1]
         want_push = T.mk_call("window.push", [S("edge.seq_out"), T.mk_call("jax.numpy.take", [S("vertex.ts_end"), S("edge.seq_out")]), S("edge.ts_recv")])
+        if neww[0] == "call" and T.call_name(neww) == "window.push" and neww[3]:
+            b = model.bind_call("base.Window.push", neww[2], neww[3])
+            if set(b) == {"seq", "ts_sent", "ts_recv"}:
+                # keyword spelling of the same call: compared in the positional spelling, here and wherever the pushed window is used
+                pos = T.mk_call("window.push", [b["seq"], b["ts_sent"], b["ts_recv"]])
+                out = T.subst(out, {neww: pos})
+                neww, iw = out[1]
         chk.add(rid, "window push (seq_out, ts_end[seq_out], ts_recv)", neww == want_push, f"the window is advanced with {T.show(neww)[:200]}, expected push(edge.seq_out, "
                 "take(sender vertex ts_end, edge.seq_out), edge.ts_recv)", chk.loc(f_sb))
         f = _fields(iw)
